@@ -366,7 +366,10 @@ class Eval:
                     continue
                 # the same guards written the other way round: `if <not guard>: <the rest>` (no else)
                 neg = negate_text(st.test)
-                if not st.orelse and isinstance(st.test, ast.UnaryOp) and isinstance(st.test.op, ast.Not) and self.has_guard(st.test.operand, env, neg):
+                negast = st.test.operand if isinstance(st.test, ast.UnaryOp) and isinstance(st.test.op, ast.Not) else \
+                    ast.Compare(left=st.test.left, ops=[ast.In()], comparators=st.test.comparators) \
+                    if isinstance(st.test, ast.Compare) and len(st.test.ops) == 1 and isinstance(st.test.ops[0], ast.NotIn) else None
+                if not st.orelse and negast is not None and self.has_guard(negast, env, neg):
                     r = self.run(st.body, env)
                     if r:
                         return r
